@@ -103,6 +103,9 @@ func NewRun(prop, tier string) *Run {
 			os.Remove(f)
 		}
 	}
+	if tier == "thorough" && Stall < 900*time.Second {
+		Stall = 900 * time.Second // larger units of work in the thorough tier
+	}
 	r.loadKnown()
 	go r.watchdog()
 	return r
@@ -221,6 +224,14 @@ func (r *Run) Add(states, transitions, traces, evals, nontrivial int64) {
 // watchdog declares a hang. It is deliberately huge: it only ever fires when
 // the engine loops forever or blocks.
 var Stall = 180 * time.Second
+
+// Tick records progress of whichever worker calls it (all workers' clocks are
+// advanced: it is only used inside long single units of work).
+func (r *Run) Tick() {
+	for w := range r.tick {
+		atomic.AddUint64(&r.tick[w], 1)
+	}
+}
 
 // Note sets the description of what worker w is doing (for hang reports).
 func (r *Run) Note(w int, desc interface{}) {
